@@ -278,8 +278,9 @@ class PathToken(TokenT):
     def __str__(self) -> str:
         it = iter(self.path)
         root = next(it)
-        if isinstance(root, PathToken):
-            # The name of the root variable is itself the value of a variable.
+        if isinstance(root, (PathToken, int)):
+            # The name of the root variable is itself the value of a variable, or
+            # an integer. Without brackets `[0]` would be the integer literal `0`.
             buf = [f"[{root}]"]
         elif isinstance(root, str) and (
             not RE_PROPERTY.fullmatch(root) or root in _RESERVED_WORDS
